@@ -1,7 +1,7 @@
 #!/bin/bash
 # Run every quick check under N different VERIF_SEED values on the current tree; any exit != 0 is
 # printed. Evidence/replays go to a scratch dir. usage: tools/soak_seeds.sh [N] [first_seed]
-cd /verif
+cd "$(dirname "$0")/.." || exit 2
 N=${1:-20}; S0=${2:-1000}
 SCR=$(mktemp -d)
 bad=0
